@@ -153,7 +153,7 @@ UNoMut == [UExec EXCEPT !.types = Without(@, "Mutation"), !.nodeType = Without(@
 \* U with the resolver calls in `faults` (<<node, field>>) made to fail and the list accessors
 \* (<<node, field, index as string>>) made to fail  (C06)
 WithFaults(U, faults) ==
-  [U EXCEPT !.nth = {f \in faults : Len(f) = 3} \cup {f \in faults : Len(f) = 2 /\ f[1] = "$root"},   \* (<<"$root", kind>>: that operation root is refused)
+  [U EXCEPT !.nth = {f \in faults : Len(f) \in {3, 4}} \cup {f \in faults : Len(f) = 2 /\ f[1] = "$root"},   \* (<<"$root", kind>>: that operation root is refused)
             !.data = [nd \in DOMAIN U.data |->
                         [f \in DOMAIN U.data[nd] |->
                            IF <<nd, f>> \in faults THEN ErrV("injected") ELSE U.data[nd][f]]]]
